@@ -53,9 +53,11 @@ SPEC = {
     'PRNG counters (fold_in of the per-scope draw counter) are C09; here a key is identified with the stream key it was folded from',
   ],
   'model_partial': [
-    'remat_scan_eq_nested_loops_partial: lift.remat_scan is proved equal to NESTED explicit loops (one per entry of lengths, each the explicit loop of scan_eq_loop); '
-    'the flattening into one loop of prod(lengths) iterations (multi-index slicing, nested split keys, per-level broadcast pass) is not proved - it is covered by the correspondence run only (flat-loop oracle)',
-    'scan_eq_loop / vmap_eq_map compare success and result (opt): which exception class is raised on failure is tied by the correspondence run only',
+    'remat_scan_eq_nested_loops_partial: proved (a) lift.remat_scan = the NEST of explicit loops, one per entry of lengths, each the explicit loop of scan_eq_loop, and '
+    '(b) nested_loops_eq_flat_loop: a nest of threaded loops = ONE flat loop of prod(lengths) iterations in row-major multi-index order (carry threading, outputs keyed by multi-index). '
+    'Not proved: the glue between (a) and (b) - that the scope plumbing between two levels (merge sliced groups, regroup by the same filters, publish and re-filter; dict algebra up to key order; nested take/stack = take/stack at the multi-index) is the identity and that the per-level broadcast pass is idempotent. Tied by the correspondence run (flat-loop oracle) only.',
+    'scan_eq_loop / vmap_eq_map compare success and result; the error side is proved for the errors flax itself raises (scan_error_classes, scan_length_errors_iff, scan_broadcast_dependency_iff, unmapped_output_never, vmap_axis_size_inference, under the hypothesis that the body raises only its own errors). '
+    'Which FOREIGN class is raised (JAX: axis out of range / transposition / lax.scan or jax.vmap size mismatch or nothing to scan / carry structure / unbatched output expected; the body: ModifyScopeVariableError, ScopeCollectionNotFound, InvalidRngError ...) is tied by the correspondence run only.',
   ],
 }
 
@@ -230,7 +232,10 @@ def run_prog(prog, sc, c, xs):
 
   for st in prog['stmts']:
     if st[0] == 'var':
-      v = sc.variable(st[2], st[3], lambda st=st: ev(st[4]))
+      def init_value(st=st):
+        val = ev(st[4])
+        return jax.random.key_data(val.key) if isinstance(val, KeyVal) else val  # a key stored as key data
+      v = sc.variable(st[2], st[3], init_value)
       vobjs[(st[2], st[3])] = v
       regs[st[1]] = v.value
     elif st[0] == 'set':
@@ -475,7 +480,7 @@ def oracle_scan(case, offsets):
   if cfg['reverse']:
     order.reverse()
   first = True
-  universe = ['P', 'K', 'S', 'Q', 'B', 'C', 'A', 'U', 'params', 'cache', 'batch_stats']
+  universe = ['P', 'K', 'S', 'Q', 'R', 'B', 'C', 'A', 'U', 'params', 'cache', 'batch_stats']
   mut_cols = [col for col in sorted(set(universe) | set(variables)) if mut(col)]
   for i in order:
     vars_i = dict(bvars)
@@ -538,7 +543,7 @@ def oracle_vmap(case, offsets):
     n = cands[0]
   scope_mut = lambda col: in_filter(case['mutable'], col)
   mut = lambda col: scope_mut(col) and first_role(out_fs, col) is not None
-  universe = ['P', 'K', 'S', 'Q', 'B', 'C', 'A', 'U', 'params', 'cache', 'batch_stats']
+  universe = ['P', 'K', 'S', 'Q', 'R', 'B', 'C', 'A', 'U', 'params', 'cache', 'batch_stats']
   mut_cols = [col for col in sorted(set(universe) | set(variables)) if mut(col)]
   ys = [None] * n
   syms = [None] * n
@@ -593,13 +598,14 @@ def oracle_remat(case, offsets):
   variables = {col: {n: arr_np(a) for n, a in cc} for col, cc in case['outer']}
   scope_mut = lambda col: in_filter(case['mutable'], col)
   mut = lambda col: scope_mut(col) and first_role(out_fs, col) is not None
-  universe = ['P', 'K', 'S', 'Q', 'B', 'C', 'A', 'U', 'params', 'cache', 'batch_stats']
+  universe = ['P', 'K', 'S', 'Q', 'R', 'B', 'C', 'A', 'U', 'params', 'cache', 'batch_stats']
   mut_cols = [col for col in sorted(set(universe) | set(variables)) if mut(col)]
   bvars = {c: v for c, v in variables.items() if first_role(in_fs, c) == 0}
   cvars = {c: v for c, v in variables.items() if first_role(in_fs, c) == 1}
   c = tuple(arr_np(a) for a in case['init'])
   fs = [f for f, _ in cfg['split']]
   outs = {}
+  syms = {}
   first = True
   for idx in itertools.product(*[range(l) for l in lengths]):
     vars_i = dict(bvars)
@@ -618,10 +624,13 @@ def oracle_remat(case, offsets):
       if g is None:
         continue
       k = jax.random.key(seed)
+      sym = {'seed': s}
       if cfg['split'][g][1]:
         for l, i in zip(lengths, idx):
           k = jax.random.split(k, l)[i]
+          sym = {'split': [sym, l, i]}
       rngs_i[s] = k
+      syms.setdefault(idx, {})[s] = {'k': sym}
     (c, _), upd = call_plain(case, 'remat', vars_i, mut_cols, rngs_i, c, (), offsets)
     for col, cc in upd.items():
       r = first_role(out_fs, col)
@@ -649,7 +658,7 @@ def oracle_remat(case, offsets):
       return stack([nest(per, prefix + (i,), lvl + 1) for i in range(lengths[lvl])], ax)
 
     final[col] = {nm: nest(per, (), 0) for nm, per in d.items()}
-  return {'vars': vars_canon(final), 'carry': [np.asarray(a) for a in c], 'ys': [], 'syms': [], 'n': int(np.prod(lengths))}
+  return {'vars': vars_canon(final), 'carry': [np.asarray(a) for a in c], 'ys': [], 'syms': syms, 'n': int(np.prod(lengths))}
 
 
 def run_oracle(case, offsets):
@@ -727,7 +736,12 @@ def offset_candidates(case):
   draws = rng_draws(case)
   if not draws:
     return [{}]
-  return [{s: t * m for s, m in draws.items()} for t in range(0, 4)]
+  ts = list(range(0, 4))
+  if case['kind'] == 'remat':
+    # every nesting level has its own broadcast pass: the innermost body is traced 2**levels times
+    k = len(case['lengths'])
+    ts = [2 ** k - 1] + [t for t in range(0, 2 ** (k + 1)) if t != 2 ** k - 1]
+  return [{s: t * m for s, m in draws.items()} for t in ts]
 
 
 def check_case(ctx, drv_reply, case, stream):
@@ -754,6 +768,8 @@ def check_case(ctx, drv_reply, case, stream):
       ctx.violation(f'{kind}-error-model-mismatch', f'implementation raised {impl[1]}, model says {model if model[0] == "err" else "ok"}', case, concrete=False)
     return
   got = int_canon(impl[1])
+  if kind == 'remat':
+    _rng_clause_remat(ctx, case, got)
   # property oracle (explicit loop), with the draw-counter offset learnt from the implementation:
   # the offset is the one that reproduces the implementation's key outputs (if any does)
   ls = lifted_streams(case)
@@ -811,6 +827,39 @@ def check_case(ctx, drv_reply, case, stream):
   _compare_model(ctx, kind, case, got, orc[1] if orc is not None else None, model)
 
 
+def key_vars(case):
+  """(collection, variable) -> effective stream, for variables initialised with a drawn key"""
+  ls = lifted_streams(case)
+  regs, out = {}, {}
+  for st in case['prog']['stmts']:
+    if st[0] == 'rng':
+      regs[st[1]] = st[2] if st[2] in ls else 'params'
+    elif st[0] == 'var' and st[4][0] == 'r' and st[4][1] in regs:
+      out[(st[2], st[3])] = regs[st[4][1]]
+  return out
+
+
+def _rng_clause_remat(ctx, case, res):
+  """at EVERY nesting level: an unsplit stream gives all prod(lengths) iterations one key, a split stream
+  pairwise different keys"""
+  fs = [f for f, _ in case['cfg']['split']]
+  for (col, nm), s in key_vars(case).items():
+    a = res['vars'].get(col, {}).get(nm)
+    g = first_role(fs, s)
+    if a is None or g is None or a['s'][-1:] != [2]:
+      continue
+    rows = [tuple(a['d'][2 * k: 2 * k + 2]) for k in range(len(a['d']) // 2)]
+    if case['cfg']['split'][g][1]:
+      ctx.count('rng_clause', 'remat-split')
+      if len(set(rows)) != len(rows):
+        ctx.violation('remat-split-rng-repeats', f'stream {s!r} is declared split but two of the {len(rows)} iterations of remat_scan(lengths={case["lengths"]}) received the same key', case)
+    else:
+      ctx.count('rng_clause', 'remat-unsplit')
+      ctx.count('remat_unsplit_levels', len(case['lengths']))
+      if len(set(rows)) != 1:
+        ctx.violation('remat-unsplit-rng-differs', f'stream {s!r} is declared unsplit but the iterations of remat_scan(lengths={case["lengths"]}) received {len(set(rows))} different keys (shape {a["s"]}): some nesting level split it', case)
+
+
 def _rng_clause(ctx, kind, case, res, orc):
   if kind == 'remat':
     return
@@ -843,7 +892,24 @@ def _compare_model(ctx, kind, case, got, orc, model):
   m = model[1]['res']
   mres = {'vars': model_vars_canon(m['vars']), 'carry': [canon_arr(a) for a in m['carry']], 'ys': [canon_arr(a) for a in m['ys']]}
   want = dict(got)
-  if orc is not None:
+  if kind == 'remat':
+    # key-valued variables: the implementation's key data <-> the symbolic key of that multi-index
+    kv = key_vars(case)
+    wv = {c: dict(cc) for c, cc in got['vars'].items()}
+    mv = {c: dict(cc) for c, cc in mres['vars'].items()}
+    idxs = list(itertools.product(*[range(l) for l in case['lengths']]))
+    for (col, nm), s_ in kv.items():
+      if orc is not None and col in wv and nm in wv[col] and all(s_ in orc['syms'].get(i, {}) for i in idxs):
+        wv[col][nm] = {'s': list(case['lengths']), 'd': [orc['syms'][i][s_] for i in idxs]}
+      else:
+        for d_ in (wv, mv):
+          if col in d_:
+            d_[col].pop(nm, None)
+            if not d_[col]:
+              d_.pop(col)
+    want = dict(got, vars=wv)
+    mres['vars'] = mv
+  elif orc is not None:
     ls = lifted_streams(case)
     want = dict(got, ys=symbolic_ys(case, orc, lambda s: s in ls))
   else:
@@ -1309,11 +1375,15 @@ def mutate_case(rng, case):
 
 
 def gen_remat_case(rng, stream='valid'):
-  lengths = rng.choice([[2], [3], [1, 2], [2, 2], [2, 1], [3, 2], [2, 1, 2], [2, 2, 2]])
+  lengths = rng.choice([[2], [3], [1, 2], [2, 2], [2, 1], [3, 2], [2, 3], [2, 2], [2, 1, 2], [2, 2, 2], [1, 2, 2]])
   api = rng.choice(['linen', 'core'])
   shape = [rng.choice([1, 2])] if rng.random() < 0.7 else []
-  cols = COLS[: rng.choice([1, 2, 3])]
+  streams = [s for s in STREAMS if rng.random() < 0.6]
+  drawn = [s for s in streams if rng.random() < 0.75]   # streams whose key the body stores (param-initialiser style)
+  cols = COLS[: rng.choice([1, 2, 3])] + (['R'] if drawn else [])
   roles = {c: rng.choice(['axis', 'axis', 'bcast', 'carry']) for c in cols}
+  if drawn:
+    roles['R'] = 'axis'
   b_cols = [c for c in cols if roles[c] == 'bcast']
   c_cols = [c for c in cols if roles[c] == 'carry']
   a_cols = [c for c in cols if roles[c] == 'axis']
@@ -1323,16 +1393,31 @@ def gen_remat_case(rng, stream='valid'):
     'carry': rand_filter_for(rng, cols, c_cols),
     'axes': [[True, 0, 'both']] if default_axes else ([[rand_filter_for(rng, cols, a_cols), 0, 'both']] if a_cols else []),
   }
-  streams = [s for s in STREAMS if rng.random() < 0.5]
-  cfg['split'] = [[True, True]] if rng.random() < 0.5 else [[s, rng.random() < 0.5] for s in streams]
-  mutable = True if rng.random() < 0.6 else [c for c in cols if rng.random() < 0.7]
+  # split_rngs: the default {True: True}, or a map mixing split and unsplit streams (with an optional catch-all)
+  if rng.random() < 0.3:
+    cfg['split'] = [[True, True]]
+  else:
+    cfg['split'] = [[rng.choice([s, [s]]), rng.random() < 0.5] for s in rng.sample(streams, len(streams))]
+    if rng.random() < 0.3:
+      cfg['split'].append([True, rng.random() < 0.5])
+  mutable = True if rng.random() < 0.6 else [c for c in cols if rng.random() < 0.7 or c == 'R']
   in_fs = [cfg['bcast'], cfg['carry']] + [a[0] for a in cfg['axes']]
   ncarry = rng.choice([1, 2])
   data_leaves = [['c', k] for k in range(ncarry)]
   const_leaves = [['k', rng.randrange(-2, 4)] for _ in range(2)]
   stmts, outer, all_regs, known_regs = [], [], [], []
+  lifted_now = {s for s in streams if first_role([f for f, _ in cfg['split']], s) is not None}
   for c in cols:
     r = first_role(in_fs, c)
+    if c == 'R':
+      # make_rng results stored as key data in an axis collection created inside the loop: one key per
+      # multi-index, visible after the loop as an array of shape lengths + (2,)
+      if r is not None and r >= 2 and in_filter(mutable, c):
+        for k, s_ in enumerate(drawn):
+          if s_ in lifted_now or 'params' in lifted_now:
+            stmts.append(['rng', f'g{k}', s_])
+            stmts.append(['var', f'rk{k}', 'R', f'k{k}', ['r', f'g{k}']])
+      continue
     if r is None:
       continue
     is_mut = in_filter(mutable, c)
@@ -1350,7 +1435,7 @@ def gen_remat_case(rng, stream='valid'):
     if present:
       vsh = (list(lengths) + shape) if r >= 2 else shape
       outer.append([c, [[nm, rand_arr(rng, vsh)] for nm in names]])
-  lifted = {s for s in streams if first_role([f for f, _ in cfg['split']], s) is not None}
+  rng.shuffle(stmts) if False else None
   prog = {'shape': shape, 'stmts': stmts, 'carry': [rand_expr(rng, all_regs + data_leaves + const_leaves, 2) for _ in range(ncarry)], 'ys': []}
   return {
     'kind': 'remat', 'api': api, 'cfg': cfg, 'lengths': lengths, 'prog': prog, 'mutable': mutable, 'outer': outer,
@@ -1495,6 +1580,54 @@ def check_length_inference(ctx, drv, rng, thorough):
       ctx.violation('scan-length-inference-model', f'model {mo} vs implementation {got} on {case}', case, concrete=False)
 
 
+def check_axis_size_inference(ctx, drv, rng, thorough):
+  """find_axis_size (lift.vmap): sizes come from the first leaf of every mapped collection group and from the
+  mapped arguments; two different sizes / none at all without axis_size are flax's errors (ValueError)"""
+  cases = []
+  for pdims in ([], [2], [3], [2, 3]):          # a mapped collection P with 0..2 variables (axis 0), sizes pdims
+    for adims in ([], [2], [3]):                # one optional mapped argument
+      for axis_size in (None, 2, 3):
+        for p_axis in (0, None):
+          cases.append((pdims, adims, axis_size, p_axis))
+  if not thorough:
+    cases = rng.sample(cases, 30)
+  reqs = []
+  for pdims, adims, axis_size, p_axis in cases:
+    cfg = {'axes': [['P', p_axis, 'both']], 'split': [], 'in_axes': 0 if adims else 0, 'out_axes': 0, 'axis_size': axis_size}
+    prog = {'shape': [], 'stmts': [], 'carry': [], 'ys': []}
+    outer = [['P', [['v%d' % k, {'s': [d], 'd': [0] * d}] for k, d in enumerate(pdims)]]] if pdims else []
+    args = [{'s': [d], 'd': [0] * d} for d in adims]
+    reqs.append(('vmap', [cfg, prog, False, outer, [], args]))
+  outs = drv.run(reqs)
+  for (pdims, adims, axis_size, p_axis), o in zip(cases, outs):
+    case = {'kind': 'axis-size-inference', 'collection_sizes': pdims, 'arg_sizes': adims, 'axis_size': axis_size, 'collection_axis': p_axis}
+    ctx.case(case)
+    variables = {'P': {'v%d' % k: jnp.zeros((d,), jnp.int32) for k, d in enumerate(pdims)}} if pdims else {}
+    args = [jnp.zeros((d,), jnp.int32) for d in adims]
+    try:
+      fn = lift.vmap(lambda scope, *xs: (), variable_axes={'P': p_axis}, split_rngs={}, in_axes=0, out_axes=0, axis_size=axis_size)
+      flax_core.apply(fn, mutable=False)(variables, *args)
+      impl = 'ok'
+    except Exception as e:
+      impl = type(e).__name__
+    # the rule: what flax reads (first leaf of the group, the arguments), then jax's check over all mapped leaves
+    read = ([pdims[0]] if (pdims and p_axis is not None) else []) + ([adims[0]] if adims else [])
+    mapped = (pdims if p_axis is not None else []) + adims
+    if len(set(read)) > 1 or (axis_size is None and not read):
+      want = 'ValueError'
+    else:
+      n = axis_size if axis_size is not None else read[0]
+      want = 'ok' if all(d == n for d in mapped) else 'ValueError'
+    ctx.count('axis_size_inference', want)
+    if impl != want:
+      ctx.violation('vmap-axis-size-inference', f'lift.vmap with collection sizes {pdims} (axis {p_axis}), argument sizes {adims}, axis_size={axis_size}: {impl}, expected {want}', case)
+      continue
+    mo = o[1] if o[0] == 'err' else 'ok'
+    if mo != impl:
+      ctx.disagreements_checked += 1
+      ctx.violation('vmap-axis-size-inference-model', f'model {mo} vs implementation {impl} on {case}', case, concrete=False)
+
+
 # ------------------------------------------------------------------------------------------------
 # entry points
 # ------------------------------------------------------------------------------------------------
@@ -1598,7 +1731,8 @@ def run(ctx):
   check_arr_prims(ctx, drv, rng)
   check_move_axis(ctx, drv, thorough)
   check_length_inference(ctx, drv, rng, thorough)
-  n_scan, n_vmap, n_remat, n_wild = (70, 35, 12, 35) if not thorough else (2400, 1200, 400, 1200)
+  check_axis_size_inference(ctx, drv, rng, thorough)
+  n_scan, n_vmap, n_remat, n_wild = (70, 35, 16, 35) if not thorough else (2400, 1200, 400, 1200)
   cases = []
   for _ in range(n_scan):
     cases.append((gen_scan_case(rng, 'valid', kind='scan'), 'valid'))
@@ -1633,6 +1767,8 @@ def _run_case(ctx, drv, obj):
     check_arr_prims(ctx, drv, ctx.rng)
   elif kind == 'length-inference':
     check_length_inference(ctx, drv, ctx.rng, True)
+  elif kind == 'axis-size-inference':
+    check_axis_size_inference(ctx, drv, ctx.rng, True)
   else:
     ctx.notes.append(f'unknown corpus case kind {kind}')
 
